@@ -535,7 +535,7 @@ Theorem json_is_the_run pick defs vars s f req s' ob rs :
   ~ has_failure rs.
 Proof.
   intros Hpick H HS.
-  destruct (json_lists_the_run pick defs vars s f req s' ob rs H HS) as (E0 & _ & Sk & NF).
+  destruct (json_lists_the_run pick defs vars s f req s' ob rs H HS) as (E0 & order0 & _ & Sk & NF).
   destruct (invocation_runs_the_closure pick defs vars s f req s' ob rs Hpick H HS) as (VR & _).
   split; [exact E0|]. split; [exact VR|]. split; [exact Sk|]. split; [|exact NF].
   destruct (invoke_cases _ _ _ _ _ _ _ _ H) as [(_ & N)|(req' & X)]; [exfalso; exact (N rs HS)|].
